@@ -314,3 +314,6 @@ def run(ck):
     check_acc(ck, prog)
     check_act(ck, prog)
     check_out_idx(ck, prog)
+    # LZMA_BUF_ERROR is produced by lzma_code() only (second no-progress call), never by a coder (rule shared with C04)
+    from . import C04
+    C04.check_ret(ck, prog)
